@@ -44,7 +44,7 @@ template<typename T>
 struct OptAdapter {
 	using O = frg::optional<T>;
 	static constexpr const char *base = "optional";
-	static constexpr int NOPS = 19;
+	static constexpr int NOPS = 20;
 	static constexpr bool copyable = std::is_copy_constructible_v<T>;
 	struct State {
 		std::unique_ptr<O> a, b;
@@ -95,6 +95,7 @@ struct OptAdapter {
 		case 15: { frg::optional<SrcInt> src; if(p & 1) src = SrcInt{s.next}; a = src; s.ma = (p & 1) ? MVal{true, s.next++} : MVal{}; c.op((p & 1) ? "a=optional<U>(v)" : "a=optional<U>()"); break; }
 		case 16: { frg::optional<SrcInt> src; if(p & 1) src = SrcInt{s.next}; a = std::move(src); s.ma = (p & 1) ? MVal{true, s.next++} : MVal{}; c.op((p & 1) ? "a=move(optional<U>(v))" : "a=move(optional<U>())"); break; }
 		case 17: if(s.ma.on) { *a = mk<T>(s.next); s.ma = {true, s.next++}; c.op("*a=T"); } break;
+		case 19: a = {}; s.ma = {}; c.op("a={}"); break; // (std::optional: `= {}` disengages, also for scalar T)
 		case 18: if(s.ma.on && !s.ma.any) { T t = std::move(a).value(); if(val(t) != s.ma.v) c.fail("value", "move(a).value()"); s.ma.any = true; c.op("move(a).value()"); } break;
 		}
 	}
